@@ -67,6 +67,19 @@ def growth_spec(rng, max_rxns=9):
     return {"mets": mets, "rxns": rx, "objective": obj, "direction": "max", "genes": GENE_NAMES[:ng]}
 
 
+def unbounded_spec(rng):
+    """a growth network whose large bounds are opened to infinity: the wild type (and many knock-outs) have no finite
+    optimum, other knock-outs cut every route and are optimal at 0"""
+    spec = growth_spec(rng)
+    for r in spec["rxns"]:
+        if r[2] >= 1000.0:
+            r[2] = INF
+        if r[1] <= -1000.0 or r[0] == "EX_m0":
+            r[1] = -INF
+    spec["rxns"] = [r for r in spec["rxns"] if r[0] != "ATPM"] if rng.random() < 0.5 else spec["rxns"]
+    return spec
+
+
 def random_spec(rng, safe=False):
     """bcc.gen.random_model (arbitrary small networks incl. infeasible / unbounded ones, min direction, two-term
     objectives) with this module's rule trees"""
